@@ -77,11 +77,135 @@ func ruleLive(c *Ctx, r *RuleResult, fnName string) {
 	}
 }
 
+// ruleEmit (C09): a slice that the enumeration hands to its consumer through the result channel
+// must never be written again. Statically: every instruction that may write the backing array of a
+// sent slice (E-EFF) addresses it through the SSA value of the allocation made in the current
+// iteration (make, or append/reslice of such a value) - a name that can only denote the newest
+// array - and no such write is reachable from a send without passing through that allocation again.
+// A write through a slice read back from memory (a work stack, a field) or carried round a loop
+// may hit an array that was already sent: the consumer then sees a clique change under its hands.
+func ruleEmit(c *Ctx, r *RuleResult, fnName string) {
+	fn := c.Fn(fnName)
+	E := c.Eff()
+	f := E.fas[fn]
+	where := map[ssa.Instruction]ipos{}
+	for _, b := range fn.Blocks {
+		for i, in := range b.Instrs {
+			where[in] = ipos{b, i}
+		}
+	}
+	// freshRoot: the allocation instruction a value is derived from without passing through memory or a phi
+	var freshRoot func(v ssa.Value, depth int) ssa.Instruction
+	freshRoot = func(v ssa.Value, depth int) ssa.Instruction {
+		if depth > 8 {
+			return nil
+		}
+		switch x := v.(type) {
+		case *ssa.MakeSlice:
+			return x
+		case *ssa.Alloc:
+			return x
+		case *ssa.Slice:
+			return freshRoot(x.X, depth+1)
+		case *ssa.ChangeType:
+			return freshRoot(x.X, depth+1)
+		case *ssa.Call:
+			if b, ok := x.Call.Value.(*ssa.Builtin); ok && b.Name() == "append" {
+				return freshRoot(x.Call.Args[0], depth+1)
+			}
+		}
+		return nil
+	}
+	baseOf := func(addr ssa.Value) ssa.Value {
+		for {
+			switch x := addr.(type) {
+			case *ssa.IndexAddr:
+				addr = x.X
+				continue
+			case *ssa.FieldAddr:
+				addr = x.X
+				continue
+			}
+			return addr
+		}
+	}
+	var sends []*ssa.Send
+	sent := map[*obj]bool{}
+	for _, b := range fn.Blocks {
+		for _, in := range b.Instrs {
+			sd, ok := in.(*ssa.Send)
+			if !ok {
+				continue
+			}
+			if _, isParam := sd.Chan.(*ssa.Parameter); !isParam {
+				continue
+			}
+			sends = append(sends, sd)
+			n := 0
+			for l := range f.P(sd.X) {
+				if l.p == "" && !sent[l.o] {
+					sent[l.o] = true
+					n++
+				}
+			}
+			r.inst("%s: send %s: %d backing arrays may be handed out", fnName, c.srcAt(sd.Pos()), len(f.P(sd.X)))
+		}
+	}
+	if len(sends) == 0 {
+		r.undecided("%s: no send on a channel parameter found", fnName)
+		return
+	}
+	for _, b := range fn.Blocks {
+		for _, in := range b.Instrs {
+			hit := false
+			for l := range f.iw[in] {
+				if sent[l.o] && l.o.root < 0 {
+					hit = true
+				}
+			}
+			if !hit {
+				continue
+			}
+			var base ssa.Value
+			switch x := in.(type) {
+			case *ssa.Store:
+				base = baseOf(x.Addr)
+			case *ssa.Call:
+				if bi, ok := x.Call.Value.(*ssa.Builtin); ok && (bi.Name() == "copy" || bi.Name() == "append") {
+					base = x.Call.Args[0]
+				}
+			}
+			desc := c.srcAt(in.Pos())
+			if desc == "" {
+				desc = in.String()
+			}
+			r.inst("%s: write %s", fnName, desc)
+			var root ssa.Instruction
+			if base != nil {
+				root = freshRoot(base, 0)
+			}
+			if root == nil {
+				r.oblig(false)
+				r.find(fnName+":write to a sent slice:"+desc, c.instrPos(in), "%s: %s may write the backing array of a slice that was already sent on the result channel (it reaches it through memory, a loop-carried value or a callee, not through this iteration's own allocation): a clique the consumer holds can change", fnName, desc)
+				continue
+			}
+			ok := true
+			for _, sd := range sends {
+				if reaches(where[sd], where[in], where[root]) {
+					ok = false
+					r.find(fnName+":write after send:"+desc, c.instrPos(in), "%s: %s can execute after the send at %s without a new allocation in between", fnName, desc, c.instrPos(sd))
+				}
+			}
+			r.oblig(ok)
+		}
+	}
+}
+
 func init() {
 	fns := []string{"graph.ChromaticIndex", "graph.ChromaticNumber", "graph.dfsDsatur", "graph.GreedyColor", "graph.IsKColorable", "graph.Degeneracy"}
 	register(&propDef{
 		id:          "C09",
-		explanation: "Decides one narrow structural clause of 'come with valid witnesses': LIVE (a witness slice that ChromaticIndex, dfsDsatur/ChromaticNumber, GreedyColor, IsKColorable or Degeneracy allocates and returns is not allocated with a provably zero length, and at least one of the stores that populate it is statically reachable under E-PROVE's dominating-edge facts), plus READONLY (none of the C09 functions writes its graph argument). Optimality, exactness and properness of the witnesses are value-level and not decided.",
+		explanation: "Decides one narrow structural clause of 'come with valid witnesses': LIVE (a witness slice that ChromaticIndex, dfsDsatur/ChromaticNumber, GreedyColor, IsKColorable or Degeneracy allocates and returns is not allocated with a provably zero length, and at least one of the stores that populate it is statically reachable under E-PROVE's dominating-edge facts), plus READONLY (none of the C09 functions writes its graph argument) and EMIT (no write can reach the backing array of a clique AllMaximalCliques has already sent: writes go through the current iteration's own allocation only). Optimality, exactness and properness of the witnesses are value-level and not decided.",
 		notDecided:  []string{"that CliqueNumber/IndependenceNumber/ChromaticNumber/ChromaticIndex/Degeneracy return the true optimum", "that the returned colouring is proper and uses exactly that many colours; that each maximal clique is reported once", "ChromaticPolynomial values; GreedyColor first-fit; invariance under relabelling and representation"},
 		assumptions: []string{"a witness whose every populating store is dead, or whose length is provably 0, is wrong for every non-empty input"},
 		run: func(c *Ctx, tier string) []*RuleResult {
@@ -97,13 +221,20 @@ func init() {
 			for _, n := range []string{"graph.CliqueNumber", "graph.IndependenceNumber", "graph.AllMaximalCliques", "graph.ChromaticNumber", "graph.IsKColorable", "graph.ChromaticIndex", "graph.GreedyColor", "graph.IsProperColouring", "graph.Degeneracy"} {
 				noWrites(c, ro, c.Fn(n), []int{0}, "its graph argument")
 			}
-			return []*RuleResult{lv, ro}
+			em := &RuleResult{Rule: "EMIT", Doc: "a clique sent on the result channel is never written again: every write that may reach a sent backing array goes through the current iteration's own allocation and cannot follow a send without a new allocation", MinInst: 2}
+			ruleEmit(c, em, "graph.AllMaximalCliques")
+			return []*RuleResult{lv, ro, em}
 		},
 		controls: func(ctl *Ctx) []*RuleResult {
 			lv := &RuleResult{Rule: "LIVE"}
 			ruleLive(ctl, lv, "livectl.BadDeadLoop")
 			ruleLive(ctl, lv, "livectl.GoodWitness")
-			return []*RuleResult{lv}
+			em := &RuleResult{Rule: "EMIT"}
+			ruleEmit(ctl, em, "livectl.BadEmitAppend")
+			ruleEmit(ctl, em, "livectl.GoodEmit")
+			em2 := &RuleResult{Rule: "EMIT"}
+			ruleEmit(ctl, em2, "livectl.BadEmitReuse")
+			return []*RuleResult{lv, em, em2}
 		},
 	})
 }
